@@ -64,7 +64,7 @@ func NRegVal(t *tape.Tape) float32 {
 	case 3:
 		return float32(t.Intn(17)) / 16
 	default:
-		return -float32(t.Intn(300))
+		return -float32(1 + t.Intn(300)) // never -0: the short number forms carry no sign of zero
 	}
 }
 
